@@ -30,10 +30,13 @@ def main():
     ap.add_argument("--tier", default="quick")
     ap.add_argument("--seeds", default="0")
     ap.add_argument("--skip-confirm", action="store_true")
+    ap.add_argument("--sub", default="", help="sub-directory of seeded/<ID>/ for a further round (e.g. r2)")
+    ap.add_argument("--via-worktree", action="store_true", help="run the checks with VERIF_REPO=<worktree> instead of patching /repo "
+                    "(for use while background runs read /repo)")
     a = ap.parse_args()
     pid = a.id
-    wt = a.worktree or "/tmp/seed/%s" % pid
-    dest = os.path.join(VERIF, "seeded", pid)
+    wt = a.worktree or ("/tmp/seed2/%s" % pid if a.sub else "/tmp/seed/%s" % pid)
+    dest = os.path.join(VERIF, "seeded", pid, a.sub) if a.sub else os.path.join(VERIF, "seeded", pid)
     os.makedirs(dest, exist_ok=True)
     meta = {"property": pid, "worktree_used": wt}
     if os.path.isdir(wt) and not a.skip_confirm:
@@ -66,24 +69,39 @@ def main():
             meta = json.load(open(old))
     # run checks against /repo with the patch applied
     checks = (a.checks.split(",") if a.checks else [pid])
-    rc, out = sh("git status --short", cwd="/repo")
-    if out.strip():
-        print("refusing: /repo has local modifications:\n" + out)
-        return 2
-    rc, out = sh("git apply %s" % os.path.join(dest, "patch.diff"), cwd="/repo")
-    if rc != 0:
-        print("patch does not apply to /repo:", out)
-        return 2
+    envp = ""
+    if a.via_worktree:
+        rc, out = sh("git diff -- yowsup", cwd=wt)
+        if out.strip() != open(os.path.join(dest, "patch.diff")).read().strip():
+            print("worktree does not hold exactly the patch")
+            return 2
+        rc, out = sh("git rev-parse HEAD", cwd=wt)
+        rc, out2 = sh("git rev-parse HEAD", cwd="/repo")
+        if out != out2:
+            print("worktree is not at /repo's HEAD")
+            return 2
+        envp = "VERIF_REPO=%s " % wt
+        meta["checks_run_via"] = "VERIF_REPO=<scratch worktree at /repo's HEAD with the patch applied>"
+    else:
+        rc, out = sh("git status --short", cwd="/repo")
+        if out.strip():
+            print("refusing: /repo has local modifications:\n" + out)
+            return 2
+        rc, out = sh("git apply %s" % os.path.join(dest, "patch.diff"), cwd="/repo")
+        if rc != 0:
+            print("patch does not apply to /repo:", out)
+            return 2
     results = meta.setdefault("check_results", {})
     try:
         for c in checks:
             for seed in a.seeds.split(","):
-                rc, out = sh("./check %s --tier %s --seed %s --no-evidence" % (c, a.tier, seed), cwd=VERIF, timeout=7200)
+                rc, out = sh(envp + "./check %s --tier %s --seed %s --no-evidence" % (c, a.tier, seed), cwd=VERIF, timeout=7200)
                 lines = [l for l in out.splitlines() if l.startswith("VIOLATION") or l.strip().startswith("what:") or l.startswith(c + " ") or l.startswith("INCONCLUSIVE")]
                 results["%s/%s/seed%s" % (c, a.tier, seed)] = {"exit": rc, "lines": [l[:400] for l in lines[:6]]}
                 print("%s %s seed=%s -> exit %d %s" % (c, a.tier, seed, rc, (lines[1][:200] if len(lines) > 1 else (lines[0][:200] if lines else ""))))
     finally:
-        sh("git checkout -- .", cwd="/repo")
+        if not a.via_worktree:
+            sh("git checkout -- .", cwd="/repo")
     meta["caught_by"] = sorted(set(k.split("/")[0] for k, v in results.items() if v["exit"] == 1))
     json.dump(meta, open(os.path.join(dest, "meta.json"), "w"), indent=1)
     return 0
